@@ -20,7 +20,7 @@ PROPERTIES = {
         assumptions=["interoperability with a live websockets server beyond the call signature is outside this family"],
     ),
     "C11": dict(
-        modules=["contracts.c11_clients"],
+        modules=["contracts.c11_clients", "contracts.c11_separate"],
         bounded=[_bounded.lazy("contracts.e2e_outcomes", "bounded_outcomes"), _bounded.lazy("contracts.c11_multipart", "bounded_separation"), _bounded.lazy("contracts.c11_multipart", "bounded_wire"),
                  _bounded.lazy("contracts.c11_multipart", "bounded_agreement"), _bounded.lazy("contracts.c11_multipart", "bounded_constructors")],
         explanation="run-time base clients: value conversion, JSON and multipart request construction, variables processing and the "
